@@ -1,6 +1,6 @@
 From Coq Require Import Extraction ExtrOcamlBasic QArith.
-From BCT Require Import Model.Partition Model.PartitionDG.
+From BCT Require Import Model.Partition Model.PartitionDG Model.PartitionDV Model.PartitionLS Model.PartitionGWB.
 Extraction Language OCaml.
 (* coqc runs with cwd = /verif/coq *)
 Extraction "../ocaml/gen/c14_model.ml" run_relabel run_pc run_pcs run_mdz run_mod run_mus run_agreement run_pd
-  run_ci2ls run_ls2ci run_dcs run_gw run_gw_repaired Qred Z.add.
+  run_ci2ls run_ls2ci run_dcs run_gw run_gw_repaired run_dummyvar run_agreement_stmt ls2ci_run ci2ls_run run_gwb Qred Z.add.
